@@ -18,14 +18,14 @@ Section ProlongationTie.
 
   Lemma nthc_facts : (nth = 2 * nthc)%Z /\ (1 <= nthc)%Z.
   Proof.
-    unfold nthc. pose proof (Z.quot_rem' nth 2) as Q. rewrite Z.rem_mod_nonneg in Q by lia.
-    rewrite Zeven_mod in Heven. apply Z.eqb_eq in Heven. split; lia.
+    unfold nthc. pose proof Heven as He. apply Z.even_spec in He. destruct He as [m Hm].
+    assert (Z.quot nth 2 = m) by (rewrite Hm, Z.mul_comm; apply Z.quot_mul; lia). lia.
   Qed.
 
   Lemma half_bounds j : (0 <= j < nth)%Z -> (0 <= Z.quot j 2 < nthc)%Z.
   Proof.
-    intros Hj. destruct nthc_facts as [E _]. pose proof (Z.quot_rem' j 2) as Q. rewrite Z.rem_mod_nonneg in Q by lia.
-    pose proof (Z.mod_pos_bound j 2 ltac:(lia)). split; [apply Z.quot_pos; lia|lia].
+    intros Hj. destruct nthc_facts as [E _]. rewrite Z.quot_div_nonneg by lia.
+    split; [apply Z.div_pos; lia|apply Z.div_lt_upper_bound; lia].
   Qed.
 
   Theorem gen_prolongation_is_model : forall (x : Z -> Z -> R) (i j : Z), (0 <= i < nr)%Z -> (0 <= j < nth)%Z ->
